@@ -162,7 +162,11 @@ func c07DBSync(r *hx.Result, rng *hx.Rng, c *c07Cluster, nRep, acks, nTx int) er
 			if tamper != nil {
 				bs = tamper(bs)
 			}
-			rh, rerr := x.db.ReplicateTx(ctx, bs, false, false)
+			rh, rerr, nrep := c07Retry(func() (*schema.TxHeader, error) { return x.db.ReplicateTx(ctx, bs, false, false) })
+			c07CountRetries(r, "db", nrep)
+			if c07StillTransient(r, c07Class(rerr), "db.ReplicateTx", nil) {
+				return cls, nil // never examined by the store: no model line, no verdict
+			}
 			if x.model != "" {
 				ans := c07Class(rerr)
 				if rerr == nil {
@@ -462,9 +466,10 @@ func c07DBAsync(r *hx.Result, rng *hx.Rng, nTx int) error {
 		// a duplicate of an earlier tx now and then
 		if id > 1 && rng.Chance(25) {
 			ob, _, _, _ := prim.ExportTxByID(ctx, &schema.ExportTxRequest{Tx: uint64(1 + rng.Intn(id-1))})
-			_, err := rep.ReplicateTx(ctx, ob, false, false)
+			_, err, nrep := c07Retry(func() (*schema.TxHeader, error) { return rep.ReplicateTx(ctx, ob, false, false) })
+			c07CountRetries(r, "db", nrep)
 			r.OracleChecks++
-			if !errors.Is(err, store.ErrTxAlreadyCommitted) {
+			if !errors.Is(err, store.ErrTxAlreadyCommitted) && !c07StillTransient(r, c07Class(err), "db.ReplicateTx (duplicate)", nil) {
 				r.Fail("C07:replica:rejected-delivery-changed-state", fmt.Sprintf("duplicate delivery at db level answered %v", err), nil)
 			}
 		}
@@ -472,8 +477,13 @@ func c07DBAsync(r *hx.Result, rng *hx.Rng, nTx int) error {
 		if err != nil {
 			return err
 		}
-		h, err := rep.ReplicateTx(ctx, b, rng.Chance(30), true)
+		skipCheck := rng.Chance(30)
+		h, err, nrep := c07Retry(func() (*schema.TxHeader, error) { return rep.ReplicateTx(ctx, b, skipCheck, true) })
+		c07CountRetries(r, "db", nrep)
 		r.OracleChecks++
+		if c07StillTransient(r, c07Class(err), "async db replication", nil) {
+			return nil
+		}
 		if err != nil || h.Id != uint64(id) {
 			r.Fail("C07:replica:genuine-export-rejected", fmt.Sprintf("async db replication of tx %d: %v", id, err), nil)
 			return nil
@@ -559,7 +569,7 @@ func c07Probes(r *hx.Result, rng *hx.Rng) error {
 			rp.discard(4)
 			out4 := rp.deliver(p.exp[4], false)
 			if !strings.HasPrefix(out4.ans, "ok ") {
-				r.Fail("C07:replica:genuine-export-rejected", "after discarding the altered tx the genuine one answered "+out4.ans, nil)
+				c07GenuineRejected(r, out4.ans, "after discarding the altered tx the genuine one answered "+out4.ans, nil)
 			}
 			rp.checkTx(p, 4, "k3-probe")
 		}
